@@ -30,7 +30,7 @@ def S(form='cm', kind='opt', ops=(('create',),), end='return', **kw):
 def shapes():
     return {
         'read-only': S(ops=[('read',)]),
-        'optimistic write': S(ops=[('read',), ('create',), ('link', 1, 2)]),
+        'optimistic write': S(ops=[('read',), ('create',), ('link', 'a', 2)]),
         'immediate': S(kind='imm', ops=[('read',), ('create',)]),
         'serializable': S(kind='ser', ops=[('update', 3)]),
         'ddl': S(kind='ddl', ops=[('create',), ('raw',)]),
@@ -75,11 +75,11 @@ def scenarios(ctx, space):
     for name, s in sh.items():
         yield dict(name=name, threads=[[s, SECOND]], fault=None, policy=['seq'], sweep=True)
     # -- two threads --------------------------------------------------------------------------------------------
-    two = ['immediate', 'optimistic write', 'read-only', 'ddl'] if quick else list(sh)
+    two = ['immediate', 'optimistic write', 'ddl'] if quick else list(sh)
     for n1 in two:
         for n2 in two:
             base = dict(name='%s || %s' % (n1, n2), threads=[[sh[n1]], [sh[n2]]], fault=None)
-            yield dict(base, policy=['seq'], sweep=not quick, preempt=True, sweep_preempt=quick and n1 != 'read-only')
+            yield dict(base, policy=['seq'], sweep=not quick, preempt=True, sweep_preempt=quick and n1 == 'immediate')
     # -- three threads: seeded schedules ---------------------------------------------------------------------------
     names = list(sh)
     for i in range(6 if quick else 150):
@@ -96,8 +96,8 @@ def run(ctx):
     if quick:
         runs = [('one-thread', txnlib.mc_cfg(inv, txnlib.ALL_PROP), True),
                 ('two-threads', txnlib.mc_cfg(inv, txnlib.ALL_PROP, Kinds='{"imm"}', **two), False),
-                ('liveness', txnlib.mc_cfg(['TypeOK'], ['LockEventuallyFree', 'Terminates'], spec='FairSpec',
-                                           Kinds='{"imm"}', **dict(two, MaxOps=1)), False)]
+                ('liveness', txnlib.mc_cfg(['TypeOK'], ['LockEventuallyFree1', 'Terminates'], spec='FairSpec1',
+                                           Kinds='{"imm"}', **dict(two, MaxOps=1, ExcKinds='{}', MaxRetry=0)), False)]
     else:
         runs = [('one-thread', txnlib.mc_cfg(inv, txnlib.ALL_PROP, MaxSess=2), True),
                 ('two-threads', txnlib.mc_cfg(inv, txnlib.ALL_PROP, NActors=2, NThreads=2, Forms='{"cm","gen"}',
@@ -106,11 +106,15 @@ def run(ctx):
                                                 ExcKinds='{"other"}', MaxNest=1, MaxWrites=1, MaxOps=1), False),
                 ('generic-provider', txnlib.mc_cfg(inv, txnlib.ALL_PROP, Provider='"generic"'), False),
                 ('liveness', txnlib.mc_cfg(['TypeOK'], ['LockEventuallyFree', 'Terminates'], spec='FairSpec',
-                                           Kinds='{"opt","imm"}', **dict(two, MaxOps=1)), False)]
+                                           Kinds='{"opt","imm"}', **dict(two, MaxOps=1)), False),
+                ('liveness-3', txnlib.mc_cfg(['TypeOK'], ['LockEventuallyFree1', 'Terminates'], spec='FairSpec1',
+                                             NActors=3, NThreads=3, Forms='{"cm"}', Kinds='{"imm"}', ExcKinds='{}',
+                                             MaxNest=1, MaxWrites=1, MaxOps=1, MaxRetry=0), False)]
     states = transitions = 0
     mc = {}
     for name, cfg, cov in runs:
-        res = tlc.model_check('PonyTxn', cfg, ctx.scratch, workers=4, coverage=cov, tag='c19-' + name)
+        res = tlc.model_check('PonyTxn', cfg, ctx.scratch, workers=4, coverage=cov, tag='c19-' + name,
+                              args=['-lncheck', 'final'] if name.startswith('liveness') else ())
         mc[name] = dict(states=res.distinct, transitions=res.generated, depth=res.depth, wall_s=round(res.wall, 1))
         states += res.distinct
         transitions += res.generated
@@ -136,7 +140,7 @@ def run(ctx):
         if sc.get('preempt'):
             steps = len(base['schedule'])
             first = base['schedule'].count(1)
-            stride = max(1, first // (5 if quick else 12))
+            stride = max(1, first // (3 if quick else 12))
             for s in range(2, first + 1, stride):
                 p = dict(sc, policy=['switch', [s]])
                 o = execute(ctx, p)
@@ -242,12 +246,12 @@ def is_setup_fault(o):
     hit = o['fault_hit']
     if not hit or hit[1:] != ('exec', 'pragma'):
         return False
-    k = o['trace']['evs']
+    k = [e for e in o['trace']['evs'] if e['a'] == hit[0] and e['ev'] == 'Db']
     for i, e in enumerate(k):
-        if e['ev'] == 'Db' and e['out'] == 'fail':
+        if e['out'] == 'fail':
             prev = k[i - 1]
             prev2 = k[i - 2] if i >= 2 else prev
-            return prev['ev'] == 'Db' and (prev['op'] == 'connect' or (prev['kind'] == 'pragma' and prev2['op'] == 'connect'))
+            return prev['op'] == 'connect' or (prev['kind'] == 'pragma' and prev2['op'] == 'connect')
     return False
 
 
